@@ -593,13 +593,13 @@ def run(plan, tier="quick", real_pool=False) -> RunResult:
     finally:
         sql.close_all()
         simos.remove_sandbox(root)
-    if plan.get("take_n") and not plan["parallel"]:
+    if plan.get("take_n") and not plan["parallel"] and len({i.get("name_offset", 0) for i in plan["inputs"]}) > 1:
         # take_n_seqs(fixed_choice=True, the default) keeps the names chosen for the first
         # record it sees: in one process the result for an input depends on what came
         # before it (known finding C14-K1); tasks of a pool each get a fresh copy
         res.probe("stateful-shipped-app-in-one-process")
         for v in res.violations:
-            if v.cls.startswith(("C14.content-differs", "C14.wrong-kind")):
+            if v.cls.startswith(("C14.content-differs", "C14.wrong-kind", "C14.passthrough", "C14.record-detail")):
                 v.cls = "C14.stateful-app/take_n_seqs"
     res.executions = 1
     res.events = len(sim.events) + sql.mutating + pool.steps
